@@ -138,6 +138,14 @@ pub fn cases(f: &mut dyn FnMut(Value) -> bool) {
             }
         }
     }
+    // zero-sized element type: every variant must run (no arithmetic on element sizes) and keep the shape
+    for m in METHODS {
+        for (c, r) in [(3usize, 2usize), (1, 4), (4, 1)] {
+            if !f(json!({"recv": "zst", "method": m, "shape": [c, r]})) {
+                return;
+            }
+        }
+    }
     // wide / tall arrays with many ties
     for seed in 0..8usize {
         for m in METHODS {
@@ -233,6 +241,29 @@ pub fn run(case: &Value) -> Res {
     let m = js(&case["method"]);
     if recv == "ordties" {
         return run_ordties(m, &jvec(&case["keys"]));
+    }
+    if recv == "zst" {
+        use toodee::TooDee;
+        let (c, r) = (ju(&case["shape"][0]), ju(&case["shape"][1]));
+        let mut t: TooDee<()> = TooDee::new(c, r);
+        let cmp = |_: &(), _: &()| std::cmp::Ordering::Equal;
+        let key = |_: &()| 0u8;
+        let got = catch(|| match m {
+            "sort_row_ord" => t.sort_row_ord::<()>(0),
+            "sort_unstable_row_ord" => t.sort_unstable_row_ord::<()>(0),
+            "sort_by_row" => t.sort_by_row(0, cmp),
+            "sort_unstable_by_row" => t.sort_unstable_by_row(0, cmp),
+            "sort_by_row_key" => t.sort_by_row_key(0, key),
+            "sort_unstable_by_row_key" => t.sort_unstable_by_row_key(0, key),
+            "sort_col_ord" => t.sort_col_ord::<()>(0),
+            "sort_by_col" => t.sort_by_col(0, cmp),
+            "sort_unstable_by_col" => t.sort_unstable_by_col(0, cmp),
+            "sort_by_col_key" => t.sort_by_col_key(0, key),
+            "sort_unstable_by_col_key" => t.sort_unstable_by_col_key(0, key),
+            _ => panic!("unknown sort method {}", m),
+        });
+        check_panic(&format!("{} on a {}x{} array of zero-sized cells", m, c, r), false, got.is_err())?;
+        return check_eq("dims after sorting zero-sized cells", &(c, r), &(t.num_cols(), t.num_rows()));
     }
     let t = Target::from_json(&case["target"]);
     let index = ju(&case["index"]);
